@@ -30,7 +30,8 @@ ASSUMPTIONS = [
 OBLIGATIONS = {"acyclic": 300, "cyclic": 100, "field:default": 100,
                "field:negatives": 100, "field:zeros": 50, "field:reachable-nodata": 50, "has-upstream": 200,
                "terminal-cell": 200, "reduced-max": 20, "random-forest": 5,
-               "inputs-unaltered": 300, "dtype-variant": 100, "layout-variant": 50}
+               "inputs-unaltered": 300, "dtype-variant": 100, "layout-variant": 50,
+               "field:wide-mantissa": 50, "field:tiny": 50}
 
 
 def mods():
@@ -70,6 +71,9 @@ def make_grids(codes, field, nodata, fd_dtype="i8", ta_dtype="f8", layout="C"):
         f = np.asarray(field, dtype=np.float64)
         if ta_dtype == "i8" and not np.all(f == np.round(f)):
             tdt = np.float64
+        if ta_dtype == "f4" and (not np.all(f.astype(np.float32) == f) or
+                                 np.abs(f).sum() >= 2 ** 24):
+            tdt = np.float64          # values or their sums need more than 24 bits
         ta = g.Grid("ta", nc, nr, dtype=tdt, nodata=nodata)
         ta.data = _layout(f, layout)
     return fd, ta
@@ -85,6 +89,13 @@ def fields_for(rng, nr, nc):
     # no-data values that partial sums can hit exactly (the Grid default 0, -1)
     f2 = rng.integers(-4, 5, size=(nr, nc)) / 1.0
     out.append(("reachable-nodata", f2, [0.0, -1.0, 2.0][int(rng.integers(0, 3))]))
+    # values that need more than a float32 mantissa and do not fit an int32: sums stay
+    # exact in binary64 (k/2 lattice, below 2^40)
+    f3 = rng.integers(0, 4, size=(nr, nc)) * 2.0 ** 26 + rng.integers(0, 8, size=(nr, nc)) / 2.0
+    out.append(("wide-mantissa", f3, -9999.0))
+    # tiny values (exact multiples of 2^-30)
+    f4 = rng.integers(1, 50, size=(nr, nc)) * 2.0 ** -30
+    out.append(("tiny", f4, -1.0))
     return out
 
 
@@ -184,6 +195,9 @@ def run(ctx):
             flds = fields_for(rng, nr, nc)
             if model_cyc:
                 flds = flds[:1] + flds[3:4]
+            else:
+                # the two magnitude classes alternate to keep the enumeration affordable
+                flds = flds[:5] + [flds[5 + idx % 2]]
             for nm, f, nd in flds:
                 case = {"kind": "acc", "codes": codes.tolist(),
                         "field": None if f is None else f.tolist(), "nodata": nd,
